@@ -16,6 +16,7 @@ package stake
 //@   ensures result == nil && wf_rwd(rwd) && rwd.height == h                                                  [C13]
 //@   ensures old(u(rwd.cumulated)) + old(u(r)) < 2^256 ==> u(rwd.cumulated) == old(u(rwd.cumulated)) + old(u(r))   [C13]
 //@   ensures rwd.cumulated == old(rwd.cumulated) && rwd.withdrawn == old(rwd.withdrawn) && rwd.slashed == old(rwd.slashed)   [C13]
+//@   ensures rwd.issued == old(rwd.issued) || fresh(rwd.issued)
 
 //@ func (rwd *Reward) Withdraw(r, h)
 //@   nopanic
@@ -27,6 +28,7 @@ package stake
 //@   ensures result == nil && wf_rwd(rwd) && rwd.height == h                                                  [C13]
 //@   ensures u(rwd.cumulated) == old(u(rwd.cumulated)) - old(u(r))                                            [C13]
 //@   ensures rwd.cumulated == old(rwd.cumulated) && rwd.issued == old(rwd.issued) && rwd.slashed == old(rwd.slashed)   [C13]
+//@   ensures rwd.withdrawn == old(rwd.withdrawn) || fresh(rwd.withdrawn)
 
 // ---- missed-block marker (C14) -------------------------------------------------------------------
 
@@ -117,10 +119,14 @@ package stake
 
 //@ func (ctrler *StakeCtrler) ValidateTrx(ctx)
 //@   nopanic
+//@   implements (ITrxHandler_TrxStakeHandler).ValidateTrx
 //@   objinv ctrler != nil && ctrler.delegateeLedger != nil && ctrler.rewardLedger != nil && ctrler.govParams != nil && ctrler.stakeLimiter != nil
 //@   assumes cons_ok == ctx.Exec
-//@   requires wf_ctx(ctx) && u(ctx.Tx.Amount) < 2^120
-//@   modifies everything
+//@   assumes u(ctx.Sender.Balance) < 2^120
+//@   requires wf_ctx(ctx) && u(ctx.Tx.Amount) <= u(ctx.Sender.Balance)
+//@   modifies allmaps(memItems.gotItems), itemkey, itemenc, StakeLimiter.*, powerObj.*, allelems(StakeLimiter.powerObjs)
+//@   allocates Delegatee, Stake, BlockMarker, Reward, uint256.Int, powerObj
+//@   ensures result == nil ==> stake_ready(ctrler, ctx)                                                      [C13]
 //@   ensures result == nil ==> ctx.Tx.Type == 2 || ctx.Tx.Type == 3 || ctx.Tx.Type == 8                      [C09]
 //@   ensures result == nil && ctx.Tx.Type == 2 ==> u(ctx.Tx.Amount) >= 10^18 && u(ctx.Tx.Amount) % 10^18 == 0   [C11]
 //@   ensures result == nil && ctx.Tx.Type == 8 ==> u(ctx.Tx.Amount) == 0 && istype(ctx.Tx.Payload, ptr(TrxPayloadWithdraw))   [C13]
@@ -133,9 +139,10 @@ package stake
 //@   objinv ctrler != nil && ctrler.delegateeLedger != nil
 //@   assumes cons_ok == ctx.Exec
 //@   assumes noalias(ctx)
-//@   requires wf_ctx(ctx) && ctx.Tx.Type == 2 && u(ctx.Tx.Amount) < 2^120
+//@   assumes u(ctx.Sender.Balance) < 2^120
+//@   requires wf_ctx(ctx) && ctx.Tx.Type == 2 && u(ctx.Tx.Amount) <= u(ctx.Sender.Balance)
 //@   modifies everything
-//@   preserves feeSumObj, u(feeSumObj), govPriceObj, u(govPriceObj), RigoApp.*, BlockContext.*, Config.*, GovParams.gasPrice, Account.Nonce, Account.Balance, Account.Code, Trx.*, TrxContext.*, govGasPrice, govMinTrxGas
+//@   preserves feeSumObj, u(feeSumObj), govPriceObj, u(govPriceObj), RigoApp.*, BlockContext.*, Config.*, GovParams.gasPrice, Account.Nonce, Account.Balance, Account.Code, Trx.*, TrxContext.*, govGasPrice, govMinTrxGas, StakeCtrler.*
 //@   ensures wf_ctx(ctx) && tx_same(ctx.Tx)
 //@   ensures result != nil ==> u(ctx.Sender.Balance) == old(u(ctx.Sender.Balance))                           [C05]
 //@   ensures result == nil ==> u(ctx.Sender.Balance) == old(u(ctx.Sender.Balance)) - u(ctx.Tx.Amount)        [C02]
@@ -148,9 +155,9 @@ package stake
 //@   objinv ctrler != nil && ctrler.delegateeLedger != nil && ctrler.frozenLedger != nil && ctrler.rewardLedger != nil
 //@   assumes cons_ok == ctx.Exec
 //@   assumes noalias(ctx)
-//@   requires wf_ctx(ctx)
+//@   requires wf_ctx(ctx) && u(ctx.Tx.Amount) <= u(ctx.Sender.Balance) && stake_ready(ctrler, ctx)
 //@   modifies everything
-//@   preserves feeSumObj, u(feeSumObj), govPriceObj, u(govPriceObj), RigoApp.*, BlockContext.*, Config.*, GovParams.gasPrice, Account.Nonce, Account.Balance, Account.Code, Trx.*, TrxContext.*, govGasPrice, govMinTrxGas
+//@   preserves feeSumObj, u(feeSumObj), govPriceObj, u(govPriceObj), RigoApp.*, BlockContext.*, Config.*, GovParams.gasPrice, Account.Nonce, Account.Balance, Account.Code, Trx.*, TrxContext.*, govGasPrice, govMinTrxGas, StakeCtrler.*
 //@   ensures wf_ctx(ctx) && tx_same(ctx.Tx)
 //@   ensures result != nil ==> u(ctx.Sender.Balance) == old(u(ctx.Sender.Balance))                           [C05]
 //@   ensures result == nil ==> u(ctx.Sender.Balance) >= old(u(ctx.Sender.Balance)) - u(ctx.Tx.Amount)        [C16]
@@ -160,20 +167,29 @@ package stake
 //@ func (ctrler *StakeCtrler) exeWithdraw(ctx)
 //@   objinv ctrler != nil && ctrler.rewardLedger != nil
 //@   assumes cons_ok == ctx.Exec
+//@   assumes noalias(ctx)
 //@   assumes as(ctx.Tx.Payload, ptr(TrxPayloadWithdraw)).ReqAmt != rwd_at(ctrler.rewardLedger, lkey(content(ctx.Tx.From)), ctx.Exec).cumulated && as(ctx.Tx.Payload, ptr(TrxPayloadWithdraw)).ReqAmt != rwd_at(ctrler.rewardLedger, lkey(content(ctx.Tx.From)), ctx.Exec).withdrawn
-//@   requires wf_ctx(ctx) && ctx.Tx.Type == 8
-//@   requires allocated(rwd_at(ctrler.rewardLedger, lkey(content(ctx.Tx.From)), ctx.Exec)) && allocated(rwd_at(ctrler.rewardLedger, lkey(content(ctx.Tx.From)), ctx.Exec).cumulated) && allocated(as(ctx.Tx.Payload, ptr(TrxPayloadWithdraw)).ReqAmt)
-//@   requires rwd_at(ctrler.rewardLedger, lkey(content(ctx.Tx.From)), ctx.Exec).height <= ctx.Height
-//@   requires u(as(ctx.Tx.Payload, ptr(TrxPayloadWithdraw)).ReqAmt) <= u(rwd_at(ctrler.rewardLedger, lkey(content(ctx.Tx.From)), ctx.Exec).cumulated)
+//@   assumes rwd_at(ctrler.rewardLedger, lkey(content(ctx.Tx.From)), ctx.Exec).height <= ctx.Height
+//@   assumes rwd_noalias(rwd_at(ctrler.rewardLedger, lkey(content(ctx.Tx.From)), ctx.Exec), ctx)
+//@   assumes u(ctx.Sender.Balance) + u(as(ctx.Tx.Payload, ptr(TrxPayloadWithdraw)).ReqAmt) < 2^256
+//@   requires wf_ctx(ctx) && ctx.Tx.Type == 8 && stake_ready(ctrler, ctx)
 //@   modifies everything
+//@   preserves feeSumObj, u(feeSumObj), govPriceObj, u(govPriceObj), RigoApp.*, BlockContext.*, Config.*, GovParams.gasPrice, Account.Nonce, Account.Balance, Account.Code, Trx.*, TrxContext.*, govGasPrice, govMinTrxGas, StakeCtrler.*
+//@   ensures wf_ctx(ctx) && tx_same(ctx.Tx)
+//@   ensures result != nil ==> u(ctx.Sender.Balance) == old(u(ctx.Sender.Balance))                           [C05]
+//@   ensures result == nil ==> u(ctx.Sender.Balance) >= old(u(ctx.Sender.Balance))                            [C13]
 //@   assert@call(Withdraw,0): $arg0 == rwd_at(ctrler.rewardLedger, lkey(content(ctx.Tx.From)), ctx.Exec) && $arg1 == as(ctx.Tx.Payload, ptr(TrxPayloadWithdraw)).ReqAmt && $arg2 == ctx.Height   [C13]
 //@   assert@call(Reward,0): $arg0 == ctx.Sender.Address && $arg1 == as(ctx.Tx.Payload, ptr(TrxPayloadWithdraw)).ReqAmt && $arg2 == ctx.Exec   [C13]
 
 //@ func (ctrler *StakeCtrler) exeUnstaking(ctx)
 //@   objinv ctrler != nil && ctrler.delegateeLedger != nil && ctrler.frozenLedger != nil
 //@   assumes cons_ok == ctx.Exec
-//@   requires wf_ctx(ctx) && ctx.Tx.Type == 3 && ctx.Height >= 0 && ctx.Height < 2^62
+//@   assumes ctx.Height >= 0 && ctx.Height < 2^62
+//@   requires wf_ctx(ctx) && ctx.Tx.Type == 3
 //@   modifies everything
+//@   preserves feeSumObj, u(feeSumObj), govPriceObj, u(govPriceObj), RigoApp.*, BlockContext.*, Config.*, GovParams.gasPrice, Account.Nonce, Account.Balance, Account.Code, Trx.*, TrxContext.*, govGasPrice, govMinTrxGas, StakeCtrler.*
+//@   ensures wf_ctx(ctx) && tx_same(ctx.Tx)
+//@   ensures u(ctx.Sender.Balance) == old(u(ctx.Sender.Balance))                                              [C05,C12]
 //@   assert@call(DelStake,0): content(ctx.Tx.From) == content(s0.From)                                        [C12]
 //@   assert@store(Stake.RefundHeight,0): $target == s0 && $value == ctx.Height + govLazyReward[ctx.GovHandler]   [C12]
 //@   assert@store(Stake.RefundHeight,1): $target == _s0 && $value == ctx.Height + govLazyReward[ctx.GovHandler]  [C12,C14]
